@@ -37,6 +37,14 @@ func (f *Frame) ownEnv(st, old *State, results []EV, li *loopInfo) *Env {
 	for _, p := range f.fn.Params {
 		env.names[p.Name()] = f.vals[p]
 	}
+	if f.fn.Signature != nil {
+		for i, old := range f.vc.P.renamedParams(f.vc.P.fnKey(f.fn), f.fn.Signature) {
+			if _, taken := env.names[old]; old != "" && !taken && i < len(f.fn.Params) {
+				env.names[old] = f.vals[f.fn.Params[i]]
+				f.vc.used["PARAM-RENAMED:"+f.vc.P.fnKey(f.fn)+":"+old] = true
+			}
+		}
+	}
 	for _, fv := range f.fn.FreeVars {
 		// a free variable is the address of the captured variable: contracts name the variable itself
 		if v, ok := f.vals[fv].(Val); ok {
